@@ -43,7 +43,44 @@ cmaxabs = z3.Function('cmaxabs', CSeq, Int)       # max |literal| over all claus
 chaszero = z3.Function('chaszero', CSeq, Bool)    # some clause contains the literal 0
 pow2 = z3.Function('pow2', Int, Int)              # 2**x for x >= 0
 
-FUNCS = dict(ilen=ilen, iget=iget, inil=inil, isnoc=isnoc, iapp=iapp, ineg=ineg, haszero=haszero,
+# ---- pseudo-Boolean terms / constraints ---------------------------------------------
+TSeq = z3.DeclareSort('TSeq')    # finite sequence of (coefficient, literal) pairs
+tlen = z3.Function('tlen', TSeq, Int)
+tcoef = z3.Function('tcoef', TSeq, Int, Int)
+tlit = z3.Function('tlit', TSeq, Int, Int)
+tunit = z3.Function('tunit', ISeq, TSeq)              # [(1,l) for l in s]
+tnegc = z3.Function('tnegc', TSeq, TSeq)              # [(-c,l) for (c,l) in t]
+tset = z3.Function('tset', TSeq, Int, Int, Int, TSeq)  # t with t[i] := (c,l)
+wsum = z3.Function('wsum', Asg, TSeq, Int)            # sum of c_i over the true literals l_i
+thaszero = z3.Function('thaszero', TSeq, Bool)        # some literal is 0
+tmaxabs = z3.Function('tmaxabs', TSeq, Int)           # max |literal| (0 if empty)
+tnonneg = z3.Function('tnonneg', TSeq, Bool)          # every coefficient >= 0
+Con = z3.Datatype('Con')
+Con.declare('mkcon', ('terms', TSeq), ('op', z3.StringSort()), ('value', Int))
+Con = Con.create()
+mkcon = Con.mkcon
+OSeq = z3.DeclareSort('OSeq')    # finite sequence of constraints
+olen = z3.Function('olen', OSeq, Int)
+onil = z3.Const('onil', OSeq)
+osnoc = z3.Function('osnoc', OSeq, Con, OSeq)
+otake = z3.Function('otake', OSeq, Int, OSeq)
+holds = z3.Function('holds', Asg, Con, Bool)
+osat = z3.Function('osat', Asg, OSeq, Bool)
+omaxabs = z3.Function('omaxabs', OSeq, Int)
+ohaszero = z3.Function('ohaszero', OSeq, Bool)
+onormal = z3.Function('onormal', OSeq, Bool)          # every constraint: coefficients >= 0, op in {>=, ==}
+
+
+def cmp_op(op, lhs, rhs):
+    S = z3.StringVal
+    return z3.If(op == S('>='), lhs >= rhs, z3.If(op == S('=='), lhs == rhs, z3.If(op == S('<='), lhs <= rhs,
+                 z3.If(op == S('<'), lhs < rhs, z3.If(op == S('>'), lhs > rhs, z3.BoolVal(False))))))
+
+
+FUNCS = dict(tlen=tlen, tcoef=tcoef, tlit=tlit, tunit=tunit, tnegc=tnegc, tset=tset, wsum=wsum, thaszero=thaszero,
+             tmaxabs=tmaxabs, tnonneg=tnonneg, mkcon=mkcon, olen=olen, osnoc=osnoc, otake=otake, holds=holds,
+             osat=osat, omaxabs=omaxabs, ohaszero=ohaszero, onormal=onormal,
+             ilen=ilen, iget=iget, inil=inil, isnoc=isnoc, iapp=iapp, ineg=ineg, haszero=haszero,
              maxof=maxof, minof=minof, maxabs=maxabs, lit_true=lit_true, count=count, ctrue=ctrue,
              clen=clen, cget=cget, cnil=cnil, csnoc=csnoc, capp=capp, ctake=ctake, combs=combs, sat=sat,
              cmaxabs=cmaxabs, pow2=pow2, chaszero=chaszero)
@@ -102,6 +139,18 @@ def _lct(a, s):
 def _lbasic(s):
     return [z3.Implies(ilen(s) == 0, s == inil), z3.Implies(haszero(s), ilen(s) > 0), maxabs(s) >= 0,
             z3.Implies(ilen(s) > 0, maxabs(s) == zmax(maxof(s), -minof(s)))]
+
+
+@lemma('tseq_basic', 'Opb.lean: tlen_nonneg, tmaxabs_nonneg, tnonneg_def', [TSeq])
+def _ltbasic(t):
+    j = z3.Int('j!nn')
+    return [tlen(t) >= 0, tmaxabs(t) >= 0,
+            tnonneg(t) == z3.ForAll([j], z3.Implies(z3.And(0 <= j, j < tlen(t)), tcoef(t, j) >= 0))]
+
+
+@lemma('oseq_basic', 'Opb.lean', [OSeq])
+def _lobasic(o):
+    return [olen(o) >= 0, omaxabs(o) >= 0]
 
 
 @lemma('cseq_basic', 'Seq.lean: cnil_of_length_zero, cmaxabs_nonneg', [CSeq])
@@ -166,12 +215,103 @@ def _on_terms(terms_by_decl):
         out.append(z3.Implies(x == 0, pow2(x) == 1))
         out.append(z3.Implies(x >= 1, pow2(x) == 2 * pow2(x - 1)))
         out.append(z3.Implies(x >= 0, pow2(x + 1) == 2 * pow2(x)))
+    out += _opb_on_terms(terms_by_decl)
     out.append(clen(cnil) == 0)
     out.append(ilen(inil) == 0)
     out.append(cmaxabs(cnil) == 0)
     out.append(z3.Not(chaszero(cnil)))
     out.append(maxabs(inil) == 0)
     out.append(z3.Not(haszero(inil)))
+    return out
+
+
+def _has_ite(e):
+    stack, seen = [e], set()
+    while stack:
+        x = stack.pop()
+        if x.get_id() in seen:
+            continue
+        seen.add(x.get_id())
+        if z3.is_app(x) and x.decl().kind() == z3.Z3_OP_ITE:
+            return True
+        stack.extend(x.children())
+    return False
+
+
+def _forall(vs, body, patterns):
+    if any(_has_ite(p) for p in patterns):
+        return z3.ForAll(vs, body)
+    return z3.ForAll(vs, body, patterns=patterns)
+
+
+def _opb_on_terms(d):
+    out = []
+    j = z3.Int('j!row')
+    for (s,) in d.get('tunit', []):
+        t = tunit(s)
+        out += [tlen(t) == ilen(s), thaszero(t) == haszero(s), tmaxabs(t) == maxabs(s), tnonneg(t)]
+    for (t,) in d.get('tnegc', []):
+        n = tnegc(t)
+        out += [tlen(n) == tlen(t), thaszero(n) == thaszero(t), tmaxabs(n) == tmaxabs(t),
+                _forall([j], z3.And(tcoef(n, j) == -tcoef(t, j), tlit(n, j) == tlit(t, j)), [tcoef(n, j), tlit(n, j)])]
+    for (t, i, c, l) in d.get('tset', []):
+        n = tset(t, i, c, l)
+        out += [tlen(n) == tlen(t),
+                _forall([j], z3.And(tcoef(n, j) == z3.If(j == i, c, tcoef(t, j)), tlit(n, j) == z3.If(j == i, l, tlit(t, j))),
+                        [tcoef(n, j), tlit(n, j)]),
+                # Opb.lean thaszero_set / tmaxabs_set (the replaced literal has the same absolute value in normalize_opb)
+                z3.Implies(z3.And(0 <= i, i < tlen(t), zabs(l) == zabs(tlit(t, i))),
+                           z3.And(thaszero(n) == thaszero(t), tmaxabs(n) == tmaxabs(t)))]
+    for (t, i) in d.get('tlit', []):
+        # Opb.lean tlit_ne_zero / tlit_le_maxabs
+        out.append(z3.Implies(z3.And(0 <= i, i < tlen(t), z3.Not(thaszero(t))), tlit(t, i) != 0))
+        out.append(z3.Implies(z3.And(0 <= i, i < tlen(t)), zabs(tlit(t, i)) <= tmaxabs(t)))
+    for (o, c) in d.get('osnoc', []):
+        n = osnoc(o, c)
+        out += [olen(n) == olen(o) + 1,
+                omaxabs(n) == zmax(omaxabs(o), tmaxabs(Con.terms(c))),
+                ohaszero(n) == z3.Or(ohaszero(o), thaszero(Con.terms(c))),
+                onormal(n) == z3.And(onormal(o), tnonneg(Con.terms(c)),
+                                     z3.Or(Con.op(c) == z3.StringVal('>='), Con.op(c) == z3.StringVal('=='))),
+                z3.Implies(z3.And(True), otake(n, olen(o)) == o)]
+    for (o, k) in d.get('otake', []):
+        for (o2, c2) in d.get('osnoc', []):
+            out.append(z3.Implies(z3.And(o == osnoc(o2, c2), 0 <= k, k <= olen(o2)), otake(o, k) == otake(o2, k)))
+        out.append(z3.Implies(k == olen(o), otake(o, k) == o))
+        for (o3, k3) in d.get('otake', []):
+            out.append(z3.Implies(z3.And(0 <= k, k <= k3, k3 <= olen(o3), o == otake(o3, k3)), otake(o, k) == otake(o3, k)))
+    out.append(olen(onil) == 0)
+    out.append(omaxabs(onil) == 0)
+    out.append(z3.Not(ohaszero(onil)))
+    out.append(onormal(onil))
+    return out
+
+
+def _opb_sem(asgs, d, by_sort):
+    out = []
+    for a in asgs:
+        out.append(osat(a, onil))
+        for (s,) in d.get('tunit', []):
+            out.append(wsum(a, tunit(s)) == count(a, s))                       # Opb.lean wsum_unit
+        for (t,) in d.get('tnegc', []):
+            out.append(wsum(a, tnegc(t)) == -wsum(a, t))                       # Opb.lean wsum_negc
+        for (t, i, c, l) in d.get('tset', []):
+            out.append(z3.Implies(z3.And(0 <= i, i < tlen(t)),                  # Opb.lean wsum_set
+                                  wsum(a, tset(t, i, c, l)) == wsum(a, t) - tcoef(t, i) * b2i(lit_true(a, tlit(t, i)))
+                                  + c * b2i(lit_true(a, l))))
+        for (o, c) in d.get('osnoc', []):
+            out.append(osat(a, osnoc(o, c)) == z3.And(osat(a, o), holds(a, c)))
+        for c in by_sort.get('Con', []):
+            out.append(holds(a, c) == cmp_op(Con.op(c), wsum(a, Con.terms(c)), Con.value(c)))
+    return out
+
+
+def _lit_neg(asgs, exprs_lits):
+    # Count.lean litTrue_neg: l != 0 -> lit_true(a,-l) = not lit_true(a,l); instantiated on every lit_true argument
+    out = []
+    for a in asgs:
+        for l in exprs_lits:
+            out.append(z3.Implies(l != 0, lit_true(a, -l) == z3.Not(lit_true(a, l))))
     return out
 
 
@@ -200,7 +340,7 @@ def _sem_on_terms(asgs, terms_by_decl):
 def _collect(exprs):
     """ground terms by sort and applications by declaration name"""
     seen = set()
-    by_sort = {'Asg': [], 'ISeq': [], 'CSeq': []}
+    by_sort = {'Asg': [], 'ISeq': [], 'CSeq': [], 'TSeq': [], 'OSeq': [], 'Con': []}
     by_decl = {}
     stack = list(exprs)
     while stack:
@@ -219,6 +359,12 @@ def _collect(exprs):
                 by_decl.setdefault(d, []).append(tuple(e.children()))
             stack.extend(e.children())
     return by_sort, by_decl
+
+
+def _is_neg(e):
+    # -x is (* -1 x) or (- x)
+    return z3.is_app(e) and ((e.decl().kind() == z3.Z3_OP_UMINUS) or
+                             (e.decl().kind() == z3.Z3_OP_MUL and e.num_args() == 2 and z3.is_int_value(e.arg(0)) and e.arg(0).as_long() == -1))
 
 
 def _has_bound(e):
@@ -241,6 +387,8 @@ def instances(exprs, rounds=2):
         new = []
         new += _on_terms(by_decl)
         new += _sem_on_terms(by_sort['Asg'], by_decl)
+        new += _opb_sem(by_sort['Asg'], by_decl, by_sort)
+        new += _lit_neg(by_sort['Asg'], [args[1] for args in by_decl.get('lit_true', []) if not _is_neg(args[1])])
         for name, lean, sorts, f in LEMMAS:
             pools = [by_sort[s.name()] for s in sorts]
             for combo in itertools.product(*pools):
